@@ -62,7 +62,17 @@ class CollectSuite(Suite):
                 pep = gens.norm(rng.choice(["1/1024", "1/512", "1/100", "1/2"])) if rng.random() < 0.7 else gens.grid_pep(rng)
                 pil.append([e, pep, ps])
             mode = rng.choice(["discard", "discard", "razor", "razor", "with_shared"])
-            if mode == "razor" and rng.random() < 0.4:
+            if mode == "razor" and rng.random() < 0.25 and len(known) >= 2:
+                # razor ties on the peptide count: two proteins with the same number of own peptides and one shared peptide, PEPs drawn
+                # so that the order of the best PEPs often differs from the order of the worst ones
+                a, b = rng.sample(known, 2)
+                k = rng.choice([1, 2, 2, 3])
+                lv = ["1/1024", "1/512", "1/100", "1/10", "1/2", "9/10"]
+                es = rng.sample(gens.PEPTIDES, 2 * k + 1)
+                pil = [[e, gens.norm(rng.choice(lv)), [a]] for e in es[:k]] + [[e, gens.norm(rng.choice(lv)), [b]] for e in es[k:2 * k]]
+                pil.append([es[2 * k], gens.norm(rng.choice(lv)), rng.sample([a, b], 2)])
+                rng.shuffle(pil)
+            elif mode == "razor" and rng.random() < 0.4:
                 # extreme PEPs: differences far below the spacing of doubles near the peptide counts, and the end points 0 and 1
                 ext = [str(Fraction(x)) for x in (1e-30, 1e-20, 1e-17, 0.0, 1.0)]
                 for row in pil:
